@@ -73,6 +73,8 @@ type vC16Event struct {
 	Clk      int64            `json:"clk"`
 	Known    map[string]int64 `json:"known"`
 	Timeouts int              `json:"timeouts"`
+	Paused   bool             `json:"paused"` // the partition was paused when the round ended
+	Pauses   int              `json:"pauses"` // PauseStream calls of the round (information only)
 	Note     string           `json:"note,omitempty"`
 }
 
@@ -105,6 +107,43 @@ type vC16Round struct {
 	cfg    vC16Cfg
 	clk    *int64
 	pubs   map[string]*vC16Pub
+	pauses int
+	note   string
+}
+
+// cur returns the partition object now in the metadata (resuming a paused
+// partition replaces the object and its commit log).
+func (r *vC16Round) cur() *partition {
+	if p := r.srv.metadata.GetPartition(r.stream, 0); p != nil {
+		r.part = p
+	}
+	return r.part
+}
+
+// pause: PauseStream and wait until the partition reports it.
+func (r *vC16Round) pause() {
+	ctx, cancel := context.WithTimeout(context.Background(), vC16Deadline)
+	defer cancel()
+	var err error
+	for attempt := 1; attempt <= 4; attempt++ {
+		if _, err = r.srv.api.PauseStream(ctx, &client.PauseStreamRequest{Name: r.stream}); err == nil {
+			break
+		}
+		time.Sleep(300 * time.Millisecond)
+	}
+	if err != nil {
+		r.note = "pause failed: " + err.Error()
+		return
+	}
+	deadline := time.Now().Add(vC16Deadline)
+	for !r.cur().IsPaused() {
+		if time.Now().After(deadline) {
+			r.note = "partition did not pause"
+			return
+		}
+		time.Sleep(200 * time.Microsecond)
+	}
+	r.pauses++
 }
 
 func (r *vC16Round) tick() int64 { return atomic.AddInt64(r.clk, 1) }
@@ -125,6 +164,10 @@ func vC16Exp(kind string, known int64) int64 {
 	switch kind {
 	case "waive":
 		return -1
+	case "neg": // negative values other than -1 do not waive the check
+		return -2
+	case "negbig":
+		return -1000000
 	case "stale":
 		e = known - 1
 	case "equal":
@@ -287,6 +330,15 @@ func (p *vC16Pub) await() (timeouts int) {
 		if pd.msg.Pol == "none" && !p.run.cfg.Occ {
 			continue
 		}
+		if pd.msg.Pol == "none" {
+			// the refusal of ack policy NONE comes from the API at once; if the API took the
+			// publish there may be no answer at all - unknown ("timeout"), not waited for long
+			select {
+			case <-pd.done:
+			case <-time.After(3 * time.Second):
+			}
+			continue
+		}
 		select {
 		case <-pd.done:
 		case <-deadline:
@@ -297,18 +349,19 @@ func (p *vC16Pub) await() (timeouts int) {
 	return timeouts
 }
 
-func (r *vC16Round) readEnd() int64 { return r.part.log.NewestOffset() + 1 }
+func (r *vC16Round) readEnd() int64 { return r.cur().log.NewestOffset() + 1 }
 
 // readLog reads the whole partition log (uncommitted reader from offset 0).
 func (r *vC16Round) readLog() (out []struct {
 	off int64
 	val string
 }, err error) {
-	newest := r.part.log.NewestOffset()
+	part := r.cur()
+	newest := part.log.NewestOffset()
 	if newest < 0 {
 		return nil, nil
 	}
-	rd, err := r.part.log.NewReader(0, true)
+	rd, err := part.log.NewReader(0, true)
 	if err != nil {
 		return nil, err
 	}
@@ -336,9 +389,22 @@ func (r *vC16Round) runWave(wave map[string]interface{}) (timeouts int) {
 		wg    sync.WaitGroup
 		mu    sync.Mutex
 	)
+	// driver steps of the wave (before the publishers start)
+	if ctl, ok := wave["#"]; ok {
+		for _, s := range ctl.([]interface{}) {
+			switch a := vStr(s.(map[string]interface{}), "a"); a {
+			case "Pause":
+				r.pause()
+			default:
+				panic("unknown driver step " + a)
+			}
+		}
+	}
 	names := make([]string, 0, len(wave))
 	for name := range wave {
-		names = append(names, name)
+		if name != "#" {
+			names = append(names, name)
+		}
 	}
 	sort.Strings(names)
 	for _, name := range names {
@@ -458,7 +524,20 @@ func TestVerifC16Server(t *testing.T) {
 		for _, w := range b.Steps {
 			timeouts += r.runWave(w)
 		}
-		// the round is over: final log and the history
+		// the round is over: final log and the history (a paused partition's log is
+		// closed: resume it, as the next publish would, to read it)
+		endedPaused := r.cur().IsPaused()
+		if endedPaused {
+			ctx, cancel := context.WithTimeout(context.Background(), vC16Deadline)
+			if err := srv.api.resumeStream(ctx, r.stream, 0); err != nil && r.note == "" {
+				r.note = "resume for the final read failed: " + err.Error()
+			}
+			cancel()
+			deadline := time.Now().Add(vC16Deadline)
+			for r.cur().IsPaused() && time.Now().Before(deadline) {
+				time.Sleep(200 * time.Microsecond)
+			}
+		}
 		entries, rerr := r.readLog()
 		all := []*vC16Msg{}
 		known := map[string]int64{}
@@ -483,9 +562,11 @@ func TestVerifC16Server(t *testing.T) {
 			logOut[i] = vC16Entry{Off: e.off, ID: ids[e.val]} // 0 = not a message of this round
 		}
 		ev := vC16Event{T: b.ID, A: "Round", Cfg: &r.cfg, Msgs: msgs, Log: logOut,
-			Clk: atomic.LoadInt64(r.clk) + 1, Known: known, Timeouts: timeouts}
+			Clk: atomic.LoadInt64(r.clk) + 1, Known: known, Timeouts: timeouts, Paused: endedPaused, Pauses: r.pauses}
 		if rerr != nil {
 			ev.A, ev.Note = "Unreadable", "reading the final log: "+rerr.Error()
+		} else if r.note != "" {
+			ev.A, ev.Note = "Unreadable", r.note
 		}
 		emit(ev)
 		if timeouts > 0 {
